@@ -62,7 +62,7 @@ PROPS = {
                 "constant tables; non-trivial = distinct op case / law instance / marker in an exhaustively tabulated group",
         "trusted": ["the value order is assumed dense without end points in `canonical` (DESIGN §7 C03 names what falls outside: an edge below the domain minimum, "
                     "or between adjacent strings); Eq/Hash on NodeId = structural equality of the kind() view is the subject of C14"],
-        "assumptions": ["`wf` of the operands: C20"],
+        "assumptions": ["`wf` of the operands: C20", "generic theorem: dense order without end points (instance Rat); at Val: bounds separated from version 0 and from NUL-terminated strings (failure shapes proved)"],
     },
     "C20": {
         "lean_targets": ["Pep508.Theorems.C20", "Pep508.Theorems.NonVacuityA"],
@@ -132,7 +132,7 @@ PROPS = {
                 "(empty and inverted ranges included): complexify and simplify are applied one step from the literal dump and compared with the model; complexify(m,R) == "
                 "m and (pfv in R) as markers; complexify(simplify) / simplify(complexify) identities for non-empty R; agreement on R => equal simplifications (a second marker "
                 "that agrees on R is synthesised); meaning inside/outside R on region environments; every call under catch_unwind; non-trivial = distinct op case",
-        "trusted": [], "assumptions": [],
+        "trusted": [], "assumptions": ["diagram identities: dense order without end points (instance Rat); meaning / wf / panic-freedom theorems: none"],
     },
     "C10": {
         "lean_targets": ["Pep508.Theorems.C10", "Pep508.Theorems.NonVacuityB"],
@@ -223,7 +223,7 @@ PROPS = {
                 "recognition, the batched redundant-term and clause elimination, rendering) given the version spellings interned in this process; Display / try_to_string / "
                 "contents() / serde must agree; the text must parse back to an == marker (equivalence for FALSE and deprecated spellings, as the property states); the DNF clauses "
                 "are evaluated term by term on region environments against the marker; top_level_extra is checked against satisfying assignments; non-trivial = distinct texts",
-        "trusted": ["diagrams in which one version value is interned under two spellings (K1) are compared semantically only"], "assumptions": [],
+        "trusted": ["diagrams in which one version value is interned under two spellings (K1) are compared semantically only"], "assumptions": ["ExtReadsPrinted x: the external version parser reads back what the printer prints (witnessed by a concrete decoder; the real pep440_rs below u64::MAX)", "SpellOK spell (normalised releases are printed under a spelling that strips back to them; witnessed)", "text round trip: bounds separated from version 0 / NUL-terminated strings, values with at most one kind of quote, modern key spellings (the carve-outs are proved necessary)"],
     },
     "C08": {
         "lean_targets": ["Pep508.Theorems.C05", "Pep508.Theorems.C08", "Pep508.Theorems.NonVacuityC"],
